@@ -461,7 +461,12 @@ def check(prop, tier, seed):
 
     # 1. Lean: build the property's theorem modules (+ driver), audit axioms
     mods = spec["modules"]
-    ok_l, log_l, dt_l = build_lean(mods + ["alock-driver"])
+    # the model driver does not depend on the property modules (nor on the generated tables): a
+    # broken proof obligation must not stop the differential search
+    ok_d, log_d, _ = build_lean(["alock-driver"])
+    ok_l, log_l, dt_l = build_lean(mods)
+    if not ok_d:
+        ok_l, log_l = False, log_d
     names = []
     for m in mods:
         n, _ = theorem_names(m)
@@ -498,7 +503,7 @@ def check(prop, tier, seed):
     total_ops = 0
     total_hist = 0
     total_states = 0
-    if ok_l and ok_h:
+    if ok_d and ok_h:
         for prim in spec["prims"]:
             obligations += 1
             fields = {prop: spec["fields"]}
